@@ -130,17 +130,30 @@ func canonRdata(typ uint16, rd []byte) ([]byte, bool) {
 		return append(out, rd[off:]...), true
 	}
 	switch typ {
-	case 2, 5, 12, 39: // NS CNAME PTR DNAME
+	case 2, 3, 4, 5, 7, 8, 9, 12, 39: // NS MD MF CNAME MB MG MR PTR DNAME
 		return names(0, 1, 0)
-	case 15, 18, 36: // MX AFSDB KX
+	case 15, 18, 21, 36: // MX AFSDB RT KX
 		return names(2, 1, 0)
 	case 33: // SRV
 		return names(6, 1, 0)
 	case 6: // SOA
 		return names(0, 2, 20)
-	case 17: // RP
+	case 14, 17: // MINFO RP
 		return names(0, 2, 0)
+	case 26: // PX
+		return names(2, 2, 0)
+	case 35: // NAPTR: order, preference, flags, services, regexp, replacement
+		off := 4
+		for i := 0; i < 3; i++ {
+			if off >= len(rd) {
+				return nil, false
+			}
+			off += 1 + int(rd[off])
+		}
+		return names(off, 1, 0)
 	}
+	// everything else is signed as published: in particular NSEC (RFC 6840 §5.1 takes it off the
+	// RFC 4034 §6.2 list), SVCB/HTTPS, LP, TALINK, NSAP-PTR, HINFO, TXT and unknown types
 	return append([]byte(nil), rd...), true
 }
 
